@@ -324,7 +324,13 @@ class FakeSnowflakeCursor:
                     self._conn.schema = None
 
                 elif cmd == "DROP SCHEMA" and ident == self._conn.schema:
-                    self._conn.schema = None
+                    # sqlglot parses the schema name into db and its database into catalog, except for
+                    # DROP SCHEMA IF EXISTS db1.schema1 which is parsed as table schema1 in db db1
+                    schema = transformed.find(exp.Table)
+                    db = schema and (schema.db if schema.args.get("this") else schema.catalog)
+                    # a schema of the same name in another database is not the current schema
+                    if not db or db == self._conn.database:
+                        self._conn.schema = None
 
         if table_comment := cast(tuple[exp.Table, str], transformed.args.get("table_comment")):
             # record table comment
